@@ -22,49 +22,93 @@ def ids (ps : List Peer) : String := joinNats (ps.map (·.1))
 def optNat (s : String) : Option (Option Nat) :=
   if s = "-" then some none else (s.toNat?).map some
 
-def step (_ : Unit) (ws : List String) : Unit × String :=
+/-- `i=<hex bytes>` pairs -/
+def parseBinds (ws : List String) : Option (List (Nat × List Nat)) :=
+  ws.mapM fun w =>
+    match w.splitOn "=" with
+    | [a, b] => match a.toNat?, unhex b with
+      | some x, some y => some (x, y)
+      | _, _ => none
+    | _ => none
+
+/-- driver state: the distances bound by the last `bind` line (peer id ↦ distance to the target, computed here with
+the model's own SHA-256); every `id:dist` pair of a following peer-list op must agree with them -/
+abbrev DSt := List (Nat × Nat)
+
+def boundOk (st : DSt) (ps : List Peer) : Bool :=
+  st.isEmpty || ps.all (fun p => st.lookup p.1 == some p.2)
+
+def stepU (ws : List String) : String :=
   match ws with
   | ["form", k, raw, xor] =>
     match kindOf k, unhex raw, unhex xor with
     | some kind, some r, some x =>
       let a : Addr := { kind, raw := r, xorname := x }
-      ((), s!"{hex (asBytes a)} {hex (toRecordKey a)} {hex (asBytes (fromRecordKey (toRecordKey a)))}")
-    | _, _, _ => ((), "bad-op")
+      s!"{hex (asBytes a)} {hex (toRecordKey a)} {hex (asBytes (fromRecordKey (toRecordKey a)))}"
+    | _, _, _ => "bad-op"
   | ["distance", ba, bb, ha, hb] =>
+    -- the model hashes the address bytes itself (SHA-256 of `Base/Sha256`); the digests on the line are the
+    -- harness's (sha2 crate, independent of the code under test) and must be the same numbers
     match unhex ba, unhex bb, ha.toNat?, hb.toNat? with
     | some a, some b, some x, some y =>
-      let H : List Nat → Nat := fun bs => if bs = a then x else if bs = b then y else 0
-      let aa : Addr := { kind := .recordKey, raw := a, xorname := [] }
-      let ab : Addr := { kind := .recordKey, raw := b, xorname := [] }
-      ((), s!"{convert (dist H aa ab)}")
-    | _, _, _, _ => ((), "bad-op")
+      if SafeNet.Sha256.hashNat a ≠ x ∨ SafeNet.Sha256.hashNat b ≠ y then "digest-mismatch"
+      else
+        let aa : Addr := { kind := .recordKey, raw := a, xorname := [] }
+        let ab : Addr := { kind := .recordKey, raw := b, xorname := [] }
+        s!"{convert (distSha aa ab)}"
+    | _, _, _, _ => "bad-op"
   | "sort" :: n :: rest =>
     match n.toNat?, parsePeers rest with
     | some n, some ps =>
       match sortPeersByKey ps n with
-      | some r => ((), tagNats "ok" (r.map (·.1)))
-      | none => ((), "err notenough")
-    | _, _ => ((), "bad-op")
+      | some r => tagNats "ok" (r.map (·.1))
+      | none => "err notenough"
+    | _, _ => "bad-op"
   | "inrange" :: r :: rest =>
     match r.toNat?, parsePeers rest with
-    | some r, some ps => ((), tagNats "ok" ((getPeersInRange ps r).map (·.1)))
-    | _, _ => ((), "bad-op")
+    | some r, some ps => tagNats "ok" ((getPeersInRange ps r).map (·.1))
+    | _, _ => "bad-op"
   | "closest" :: n :: r :: rest =>
     match optNat n, optNat r, parsePeers rest with
-    | some n, some r, some ps => ((), tagNats "ok" ((calcClosest ps n r).map (·.1)))
-    | _, _, _ => ((), "bad-op")
+    | some n, some r, some ps => tagNats "ok" ((calcClosest ps n r).map (·.1))
+    | _, _, _ => "bad-op"
   | "replcand" :: r :: rest =>
     match optNat r, parsePeers rest with
-    | some r, some ps => ((), tagNats "ok" ((replicateCandidates (sortByDist ps) r).map (·.1)))
-    | _, _ => ((), "bad-op")
+    | some r, some ps => tagNats "ok" ((replicateCandidates (sortByDist ps) r).map (·.1))
+    | _, _ => "bad-op"
   | "closegroup" :: c :: me :: rest =>
     match c.toNat?, me.toNat?, parsePeers rest with
     | some c, some me, some ps =>
       match closeGroupSelect ps me (c != 0) with
-      | some r => ((), tagNats "ok" (r.map (·.1)))
-      | none => ((), "err notenough")
-    | _, _, _ => ((), "bad-op")
-  | _ => ((), "bad-op")
+      | some r => tagNats "ok" (r.map (·.1))
+      | none => "err notenough"
+    | _, _, _ => "bad-op"
+  | _ => "bad-op"
+
+
+def step (st : DSt) (ws : List String) : DSt × String :=
+  match ws with
+  | "target" :: _ => ([], "bad-op")
+  | "bind" :: tb :: rest =>
+    -- distances from the target to every listed peer, from the raw address bytes through the model's SHA-256
+    match unhex tb, parseBinds rest with
+    | some t, some bs =>
+      let ta : Addr := { kind := .recordKey, raw := t, xorname := [] }
+      let ds := bs.map (fun (i, b) => (i, convert (distSha ta { kind := .recordKey, raw := b, xorname := [] })))
+      (ds, if ds.isEmpty then "-" else " ".intercalate (ds.map (fun (i, d) => s!"{i}:{d}")))
+    | _, _ => (st, "bad-op")
+  | op :: rest =>
+    if op ∈ ["sort", "inrange", "closest", "replcand", "closegroup"] then
+      -- the `id:dist` pairs are the trailing words of every peer-list op
+      let pairs := (rest.filter (fun w => w.contains ':')).filterMap (fun w =>
+        match w.splitOn ":" with
+        | [a, b] => match a.toNat?, b.toNat? with
+          | some x, some y => some (x, y)
+          | _, _ => none
+        | _ => none)
+      if boundOk st pairs then (st, stepU ws) else (st, "unbound-dist")
+    else (st, stepU ws)
+  | [] => (st, stepU ws)
 
 /-- model search: small checks of the regenerated definitions against the XOR metric -/
 def searchCandidates : List String := Id.run do
